@@ -3,6 +3,8 @@ package main
 import (
 	"fmt"
 	"math/big"
+	"os"
+	"path/filepath"
 	"sort"
 	"strings"
 
@@ -87,6 +89,133 @@ func runStateDB(r *hx.R, n int, w *hx.W, _ []string) error {
 			als = append(als, fmt.Sprint(x))
 		}
 		return fmt.Sprintf("R=%d L=%d AL=%s/%d", db.GetRefund(), len(db.Logs()), items(als), nslots)
+	}
+	// corpus first: hand-written and minimised sequences (corpus/C04/*.ops), executed op by op on the real StateDB
+	corpusDir := os.Getenv("VERIF_CORPUS")
+	if corpusDir == "" {
+		corpusDir = "/verif/corpus"
+	}
+	files, _ := filepath.Glob(filepath.Join(corpusDir, "C04", "*.ops"))
+	sort.Strings(files)
+	for _, f := range files {
+		bz, err := os.ReadFile(f)
+		if err != nil {
+			continue
+		}
+		var db *statedb.StateDB
+		var cctx sdk.Context
+		for _, line := range strings.Split(string(bz), "\n") {
+			line = strings.TrimSpace(line)
+			if line == "" || strings.HasPrefix(line, "#") {
+				continue
+			}
+			a := strings.Fields(line)
+			num := func(i int) int64 { v, _ := new(big.Int).SetString(a[i], 10); return v.Int64() }
+			res := hx.Recover(func() string {
+				switch a[1] {
+				case "reset":
+					cctx, _ = deps.Ctx.CacheContext()
+					init := k.NewStateDB(cctx, statedb.NewEmptyTxConfig(gethcommon.Hash{}))
+					for _, it := range strings.Split(strings.TrimPrefix(a[2], "ACC="), ",") {
+						f := strings.Split(it, ":")
+						var i int
+						fmt.Sscan(f[0], &i)
+						if f[1] == "-" {
+							continue
+						}
+						var nonce, code, bal, other int64
+						fmt.Sscan(f[1], &nonce)
+						fmt.Sscan(f[2], &code)
+						fmt.Sscan(f[3], &bal)
+						fmt.Sscan(f[4], &other)
+						init.AddBalance(sdbAddrs[i], new(big.Int).Mul(e12, big.NewInt(bal)))
+						init.SetNonce(sdbAddrs[i], uint64(nonce))
+						if code != 0 {
+							init.SetCode(sdbAddrs[i], []byte{byte(code)})
+						}
+						if other > 0 {
+							_ = testapp.FundAccount(bank, cctx, sdk.AccAddress(sdbAddrs[i].Bytes()), sdk.NewCoins(sdk.NewInt64Coin("utest", other)))
+						}
+					}
+					if st := strings.TrimPrefix(a[3], "ST="); st != "-" {
+						for _, it := range strings.Split(st, ",") {
+							var ai, ki int
+							var v int64
+							fmt.Sscanf(it, "%d.%d=%d", &ai, &ki, &v)
+							init.SetState(sdbAddrs[ai], keys[ki], gethcommon.BigToHash(big.NewInt(v)))
+						}
+					}
+					if err := init.Commit(); err != nil {
+						return "reset-error"
+					}
+					db = k.NewStateDB(cctx, statedb.NewEmptyTxConfig(gethcommon.Hash{}))
+					return "ok"
+				case "read":
+					return readAcc(db, int(num(2)))
+				case "getState":
+					return hashInt(db.GetState(sdbAddrs[num(2)], keys[num(3)])) + "/" + hashInt(db.GetCommittedState(sdbAddrs[num(2)], keys[num(3)]))
+				case "misc":
+					return renderMisc(db)
+				case "setState":
+					db.SetState(sdbAddrs[num(2)], keys[num(3)], gethcommon.BigToHash(big.NewInt(num(4))))
+				case "addBalance":
+					v, _ := new(big.Int).SetString(a[3], 10)
+					if v.Sign() < 0 {
+						db.SubBalance(sdbAddrs[num(2)], new(big.Int).Neg(v))
+					} else {
+						db.AddBalance(sdbAddrs[num(2)], v)
+					}
+				case "setNonce":
+					db.SetNonce(sdbAddrs[num(2)], uint64(num(3)))
+				case "setCode":
+					db.SetCode(sdbAddrs[num(2)], []byte{byte(num(3))})
+				case "createAccount":
+					db.CreateAccount(sdbAddrs[num(2)])
+				case "suicide":
+					return b01(db.Suicide(sdbAddrs[num(2)]))
+				case "addLog":
+					db.AddLog(&gethcore.Log{Address: sdbAddrs[0]})
+				case "addRefund":
+					db.AddRefund(uint64(num(2)))
+				case "snapshot":
+					return fmt.Sprintf("id=%d", db.Snapshot())
+				case "revert":
+					db.RevertToSnapshot(int(num(2)))
+				case "precompile":
+					cacheCtx, je := db.CacheCtxForPrecompile()
+					if err := db.SavePrecompileCalledJournalChange(je); err != nil {
+						return "limit " + renderMisc(db) + " C:" + renderStore(*db.GetCacheContext())
+					}
+					if err := db.CommitCacheCtx(); err != nil {
+						return "flush-error"
+					}
+					out := "ok"
+					switch a[2] {
+					case "other":
+						if err := testapp.FundAccount(bank, cacheCtx, sdk.AccAddress(sdbAddrs[num(3)].Bytes()), sdk.NewCoins(sdk.NewInt64Coin("utest", num(4)))); err != nil {
+							out = "error"
+						}
+					case "move":
+						if err := bank.SendCoins(cacheCtx, sdk.AccAddress(sdbAddrs[num(3)].Bytes()), sdk.AccAddress(sdbAddrs[num(4)].Bytes()), sdk.NewCoins(sdk.NewInt64Coin("unibi", num(5)))); err != nil {
+							out = "insufficient"
+						}
+					}
+					return out + " " + renderMisc(db) + " C:" + renderStore(*db.GetCacheContext())
+				case "commit":
+					if err := db.Commit(); err != nil {
+						return "commit-error"
+					}
+					k.Bank.StateDB = nil
+					return "P:" + renderStore(cctx)
+				default:
+					return "unknown-op"
+				}
+				return "ok"
+			})
+			w.Count("corpus")
+			w.Step(line, res)
+		}
+		k.Bank.StateDB = nil
 	}
 	for c := 0; c < n; c++ {
 		ctx, _ := deps.Ctx.CacheContext()
